@@ -14,8 +14,8 @@
 (* comb at offset 0 (pref + 10 log10(nch)).                                                                    *)
 (*                                                                                                            *)
 (* The module states the PROPERTY.  Where the property leaves a choice (rounding ties of the rule, the two     *)
-(* admissible reductions for an auto-selected model, the size of the automatic output VOA) the step is         *)
-(* nondeterministic.                                                                                          *)
+(* admissible reductions for an auto-selected model, the size of the automatic output VOA) the operators       *)
+(* return SETS and the step of DesignPower.tla is nondeterministic.                                            *)
 EXTENDS GnpyBase
 
 ROADM == 0          \* what follows the amplifier: the egress ROADM,
@@ -98,17 +98,20 @@ ClosureAt(a, o, prev, tol) == Within(o.gain, a.L + a.inVoa + o.dp - prev, tol)
 AtLimitAt(cfg, a, o, tol) == \/ Within(cfg.prefTot + o.dp, a.pmax, tol)
                              \/ (~a.uVar /\ Within(o.gain, a.flatx, tol))
 
-\* where the operator set no offset, the net offset never exceeds the documented rule ...
+\* where the operator set no offset, the net offset is the documented rule - or lower, the amplifier then sitting
+\* exactly on its limit ...
 PowerRuleAt(cfg, a, o, tol) == (RuleApplies(cfg, a) /\ a.nxt = SPAN) =>
-                                  \E r \in RuleSet(cfg, a.nxt, a.Ln) : NetOf(o) <= r + tol
-\* ... is 0 before a ROADM (or lower when saturating) ...
-ZeroBeforeRoadmAt(cfg, a, o, tol) == (RuleApplies(cfg, a) /\ a.nxt = ROADM) => NetOf(o) <= tol
-\* ... and is lower than the rule only when the amplifier then sits exactly at its limit (reduced only as needed)
+    \/ \E r \in RuleSet(cfg, a.nxt, a.Ln) : Within(NetOf(o), r, tol)
+    \/ (AtLimitAt(cfg, a, o, tol) /\ \E r \in RuleSet(cfg, a.nxt, a.Ln) : NetOf(o) < r)
+\* ... and 0 before a ROADM (same proviso)
+ZeroBeforeRoadmAt(cfg, a, o, tol) == (RuleApplies(cfg, a) /\ a.nxt = ROADM) =>
+    (Within(NetOf(o), 0, tol) \/ (AtLimitAt(cfg, a, o, tol) /\ NetOf(o) < 0))
+\* reduced only as needed: whatever is below the rule / below what the operator set sits exactly on a limit
 ReductionOnlyAsNeededAt(cfg, a, o, tol) ==
-    /\ (RuleApplies(cfg, a) /\ InDomain(a)) =>
-           ((\E r \in RuleSet(cfg, a.nxt, a.Ln) : Within(NetOf(o), r, tol)) \/ AtLimitAt(cfg, a, o, tol))
-    /\ OffsetKept(cfg, a) => (NetOf(o) + VoaU(a) >= a.uDp - tol \/ AtLimitAt(cfg, a, o, tol))
-    /\ GainKept(cfg, a)   => (o.gain >= a.uGain - tol \/ AtLimitAt(cfg, a, o, tol))
+    /\ (RuleApplies(cfg, a) /\ InDomain(a) /\ \A r \in RuleSet(cfg, a.nxt, a.Ln) : NetOf(o) < r - tol)
+           => AtLimitAt(cfg, a, o, tol)
+    /\ (OffsetKept(cfg, a) /\ NetOf(o) + VoaU(a) < a.uDp - tol) => AtLimitAt(cfg, a, o, tol)
+    /\ (GainKept(cfg, a) /\ o.gain < a.uGain - tol) => AtLimitAt(cfg, a, o, tol)
 
 \* operator-set offsets and (gain mode) gains are kept unless they would saturate (then: lower, never higher)
 OperatorOffsetKeptAt(cfg, a, o, tol) == OffsetKept(cfg, a) => NetOf(o) + VoaU(a) <= a.uDp + tol
